@@ -45,9 +45,14 @@ PROOF_UNITS = {
     'C01': _kernel_units('removal') + _observer_units('removal') + _bulk_units() + _ctor_units(),
     'C03': _kernel_units('removal') + _ctor_units(),
     'C04': _kernel_units('removal') + _read_units(),
-    'C05': _kernel_units('removal') + [('contracts.kernel', 'AddInteraction', (cls,), {'mode': 'removal', 't': 'int', 'e': e, 'inv': 'strong'})
+    'C05': [('contracts.stream', 'StreamInteractions', (cls,), {}) for cls in ('DynGraph', 'DynDiGraph')] + _kernel_units('removal') + [('contracts.kernel', 'AddInteraction', (cls,), {'mode': 'removal', 't': 'int', 'e': e, 'inv': 'strong'})
                                        for cls in ('DynGraph', 'DynDiGraph') for e in ('none', 'int')],
     'C07': _kernel_units('removal') + _kernel_units('accum') + _bulk_units(),
+    'C02': [('contracts.queries', 'NumberOfInteractionsPair', (cls,), {'mode': m, 't': t}) for cls in ('DynGraph', 'DynDiGraph')
+            for m in ('removal', 'accum') for t in ('int', 'none')]
+           + [u for u in _observer_units('removal') if u[1] == 'HasInteraction'],
+    'C14': [('contracts.pure', 'PathLength', (), {}), ('contracts.pure', 'PathDuration', (), {})],
+    'C17': [('contracts.stats', 'EdgeContribution', (), {})],
     'C06': [('contracts.slice', 'TimeSlice', (cls,), {'t_to': t}) for cls in ('DynGraph', 'DynDiGraph') for t in ('int', 'none')]
            + [('contracts.ctor', 'Init', (cls,), {'edge_removal': e}) for cls in ('DynGraph', 'DynDiGraph') for e in ('default', 'given')],
     'C08': _kernel_units('accum') + _observer_units('accum'),
@@ -84,9 +89,9 @@ STATIC_PARTS = {
 
 LEVELS = {
     'C01': 'other', 'C03': 'other', 'C04': 'other', 'C05': 'other', 'C07': 'other', 'C08': 'other',
-    'C02': 'exploration', 'C06': 'other', 'C16': 'exploration', 'C17': 'exploration', 'C19': 'other',
+    'C02': 'other', 'C06': 'other', 'C16': 'exploration', 'C17': 'other', 'C19': 'other',
     'C09': 'exploration', 'C10': 'exploration', 'C11': 'exploration', 'C18': 'other',
-    'C12': 'exploration', 'C13': 'exploration', 'C14': 'exploration', 'C15': 'exploration', 'C20': 'exploration',
+    'C12': 'exploration', 'C13': 'exploration', 'C14': 'other', 'C15': 'exploration', 'C20': 'exploration',
 }
 
 from .manifest_data import CLAIMS as _CLAIMS
